@@ -29,6 +29,7 @@ import (
 	"testing"
 	"time"
 
+	"git.torproject.org/pluggable-transports/snowflake.git/v2/common/event"
 	"git.torproject.org/pluggable-transports/snowflake.git/v2/common/messages"
 	"git.torproject.org/pluggable-transports/snowflake.git/v2/common/util"
 	"github.com/gorilla/websocket"
@@ -41,8 +42,9 @@ import (
 // plan and events
 
 type vStep struct {
-	Act  string        `json:"act"`
-	Args []interface{} `json:"args"`
+	Act    string             `json:"act"`
+	Args   []interface{}      `json:"args"`
+	Settle map[string]vSettle `json:"settle"` // data path: what has to be observed before the next step (per session)
 }
 
 type vPlan struct {
@@ -144,16 +146,19 @@ type vRelayReq struct {
 }
 
 type vRelayConn struct {
-	s      int
-	ws     *websocket.Conn // nil until the upgrade is done
-	failed bool
-	ended  bool // relay.end logged
+	s           int
+	ws          *websocket.Conn // nil until the upgrade is done
+	failed      bool
+	ended       bool // relay.end logged
+	byProxy     bool // ... because the proxy closed the WebSocket
+	relayClosed bool // data path: the relay itself has closed it
 }
 
 type vClient struct {
-	pc    *webrtc.PeerConnection
-	dc    *webrtc.DataChannel
-	offer string
+	closed bool // data path: the client has closed (data channel or peer connection)
+	pc     *webrtc.PeerConnection
+	dc     *webrtc.DataChannel
+	offer  string
 }
 
 type vRig struct {
@@ -168,7 +173,7 @@ type vRig struct {
 	outf   *os.File
 
 	mainG     int64
-	phG       int64 // goroutine of the scheduler: its tokens.get()/ret() calls are phantom sessions
+	phG       int64         // goroutine of the scheduler: its tokens.get()/ret() calls are phantom sessions
 	handlerG  map[int64]int // goroutine id -> session
 	lastOnDC  int
 	cur       int            // sessions started = number of tok.get events
@@ -180,14 +185,20 @@ type vRig struct {
 	hGate     bool                  // hold every handler goroutine at dh.start
 	hGateGo   map[int]chan struct{} // session -> release
 
-	polls     chan *vPoll
-	answers   chan *vAnswer
-	relayReqs chan *vRelayReq
-	relays    map[int]*vRelayConn
-	defaultQ  []int          // sessions whose handler dialled the operator's default relay URL, oldest first
-	ownAddr   map[string]int // distinguishing client address -> session it was made for
-	clients   map[int]*vClient
-	ansOf     map[int]string
+	polls      chan *vPoll
+	answers    chan *vAnswer
+	relayReqs  chan *vRelayReq
+	relays     map[int]*vRelayConn
+	connS      map[*webRTCConn]int         // data path: conn -> session (rs.conn hook)
+	dcS        map[*webrtc.DataChannel]int // data path: proxy-side data channel -> session
+	wrGate     map[int]chan struct{}       // data path: sessions whose conn.Write is to be held after it has counted the chunk
+	clGate     map[int]chan struct{}       // data path: sessions whose handler is to be held at cl.end (after copyLoop's select)
+	onRelayMsg func(s int, msg []byte)     // data path: every WebSocket message a relay receives
+	onOver     func(in, out int)           // data path: EventOnProxyConnectionOver as a listener of the proxy's dispatcher sees it
+	defaultQ   []int                       // sessions whose handler dialled the operator's default relay URL, oldest first
+	ownAddr    map[string]int              // distinguishing client address -> session it was made for
+	clients    map[int]*vClient
+	ansOf      map[int]string
 
 	listeners map[string]net.Listener // "inside", "inside-tls", "outside", "outside-tls", "default"
 	autoRelay bool                    // C06(d): decoys accept and close at once
@@ -268,6 +279,34 @@ func (r *vRig) hook(point string, args ...interface{}) {
 		s, _ := strconv.Atoi(strings.TrimPrefix(lbl, "s"))
 		r.lastOnDC = s
 		e["s"] = s
+	case "rs.conn":
+		dc, _ := args[0].(*webrtc.DataChannel)
+		conn, _ := args[1].(*webRTCConn)
+		s2, _ := strconv.Atoi(strings.TrimPrefix(dc.Label(), "s"))
+		if r.connS == nil {
+			r.connS, r.dcS = map[*webRTCConn]int{}, map[*webrtc.DataChannel]int{}
+		}
+		r.connS[conn], r.dcS[dc] = s2, s2
+		e["s"] = s2
+	case "dc.onmsg":
+		dc, _ := args[0].(*webrtc.DataChannel)
+		e["s"], e["n"], e["len"] = r.dcS[dc], args[1], args[2]
+	case "dc.onclose":
+		dc, _ := args[0].(*webrtc.DataChannel)
+		e["s"], e["in"], e["out"] = r.dcS[dc], args[1], args[2]
+	case "conn.write":
+		conn, _ := args[0].(*webRTCConn)
+		e["s"], e["n"], e["sent"] = r.connS[conn], args[1], args[2]
+	case "conn.write.counted":
+		conn, _ := args[0].(*webRTCConn)
+		e["s"], e["n"] = r.connS[conn], args[1]
+	case "conn.pcclose":
+		conn, _ := args[0].(*webRTCConn)
+		e["s"] = r.connS[conn]
+	case "cl.end":
+		if conn, ok := args[0].(*webRTCConn); ok {
+			e["s"] = r.connS[conn]
+		}
 	case "dh.start":
 		// the handler goroutine is spawned by the callback that has just logged rs.ondc
 		r.handlerG[gid] = r.lastOnDC
@@ -315,6 +354,24 @@ func (r *vRig) hook(point string, args ...interface{}) {
 	if hg != nil {
 		<-hg // gate: before the handler decides whether the slot is its own
 	}
+	if point == "conn.write.counted" {
+		r.mu.Lock()
+		s2, _ := e["s"].(int)
+		wg := r.wrGate[s2]
+		r.mu.Unlock()
+		if wg != nil {
+			<-wg // gate: the chunk is counted, conn.lock not yet taken
+		}
+	}
+	if point == "cl.end" {
+		r.mu.Lock()
+		s2, _ := e["s"].(int)
+		cg := r.clGate[s2]
+		r.mu.Unlock()
+		if cg != nil {
+			<-cg // gate: copyLoop has seen one copier end, nothing is closed yet
+		}
+	}
 	if gate {
 		// gate: hold the main loop at the start of its timeout branch until the
 		// scheduler releases it (outside every lock of the code under test)
@@ -353,12 +410,13 @@ func vOwnAddr(s int) string { return "198.51.100." + strconv.Itoa(10+s%200) }
 
 // vMungeOffer rewrites the candidates of a serialized offer so that
 // remoteIPFromSDP derives what the behaviour says:
-//   own   an extra FIRST candidate with the session's distinguishing address
-//         (the real candidates stay, so ICE still connects)
-//   none  no usable candidate: all candidate lines removed, or all of them
-//         rewritten to local / loopback / unspecified addresses (the proxy
-//         then learns the client as a peer-reflexive candidate)
-//   real  untouched
+//
+//	own   an extra FIRST candidate with the session's distinguishing address
+//	      (the real candidates stay, so ICE still connects)
+//	none  no usable candidate: all candidate lines removed, or all of them
+//	      rewritten to local / loopback / unspecified addresses (the proxy
+//	      then learns the client as a peer-reflexive candidate)
+//	real  untouched
 func vMungeOffer(offer string, kind string, s int, variant int) (string, error) {
 	if kind == "" || kind == "real" {
 		return offer, nil
@@ -422,6 +480,24 @@ func (r *vRig) waitEvent(what string, n int, d time.Duration, pred func(vEvent) 
 			}
 		}
 		if c >= n {
+			return true
+		}
+		if time.Now().After(deadline) {
+			return false
+		}
+		r.cond.Wait()
+	}
+}
+
+// waitCond blocks until pred holds for the recorded events.
+func (r *vRig) waitCond(d time.Duration, pred func([]vEvent) bool) bool {
+	deadline := time.Now().Add(d)
+	timer := time.AfterFunc(d+10*time.Millisecond, func() { r.mu.Lock(); r.cond.Broadcast(); r.mu.Unlock() })
+	defer timer.Stop()
+	r.mu.Lock()
+	defer r.mu.Unlock()
+	for {
+		if pred(r.events) {
 			return true
 		}
 		if time.Now().After(deadline) {
@@ -635,13 +711,18 @@ func (r *vRig) serveRelay(which string, w http.ResponseWriter, req *http.Request
 	}
 	// notice when the other side goes away first
 	for {
-		if _, _, err := ws.ReadMessage(); err != nil {
+		_, msg, err := ws.ReadMessage()
+		if err != nil {
 			break
+		}
+		if r.onRelayMsg != nil {
+			r.onRelayMsg(s, msg)
 		}
 	}
 	r.mu.Lock()
 	if !rc.ended {
 		rc.ended = true
+		rc.byProxy = true
 		r.held--
 		r.logLocked(vEvent{"ev": "relay.end", "s": s, "by": "proxy"})
 	}
@@ -670,6 +751,8 @@ func (r *vRig) endRelay(s int, by string) {
 	r.mu.Unlock()
 	if by == "client" && cl != nil {
 		cl.pc.Close()
+	} else if by == "clientdc" && cl != nil {
+		cl.dc.Close()
 	} else {
 		rc.ws.Close()
 	}
@@ -805,12 +888,25 @@ func (r *vRig) startProxy() *SnowflakeProxy {
 		RelayDomainNamePattern: vPatternString(r.plan.Pattern),
 		AllowNonTLSRelay:       r.plan.Allow,
 	}
+	if r.onOver != nil {
+		d := event.NewSnowflakeEventDispatcher()
+		d.AddSnowflakeEventListener(vOverListener{r})
+		sf.EventDispatcher = d
+	}
 	r.log(vEvent{"ev": "start", "N": int(r.plan.Capacity), "pattern": r.plan.Pattern, "allow": r.plan.Allow, "plan": r.plan.Name})
 	go func() {
 		err := sf.Start()
 		r.log(vEvent{"ev": "start.returned", "err": fmt.Sprint(err)})
 	}()
 	return sf
+}
+
+type vOverListener struct{ r *vRig }
+
+func (l vOverListener) OnNewSnowflakeEvent(e event.SnowflakeEvent) {
+	if o, ok := e.(event.EventOnProxyConnectionOver); ok {
+		l.r.onOver(o.InboundTraffic, o.OutboundTraffic)
+	}
 }
 
 func (r *vRig) finish() {
